@@ -111,3 +111,8 @@ class MultiObjectiveProgressTracker(ProgressTracker):
 
     def get_best_individuals(self) -> list[Individual]:
         return self.pareto_front
+
+    def get_best_individual(self) -> Optional[Individual]:
+        """The first of the best individuals (what GeneticProgramming returns); the searches that keep a single
+        solution (random search, hill climbing, 1+1) ask for it and used to get None for a multi-objective problem."""
+        return self.pareto_front[0] if self.pareto_front else None
